@@ -86,10 +86,38 @@ theorem C09_no_internal_param_seed : Gen.Rng.paramSeedCallSites = [] := by decid
 /-- no RNG source outside what the table models (np.random attributes and private generators) -/
 theorem C09_no_unknown_source : Gen.Rng.unknownSources = [] := by decide
 
+/-- every private generator the package builds is created from an explicit value (an attribute, a literal, a config field or
+    a parameter): none is created without argument, i.e. from operating-system entropy, which no seed could reproduce -/
+theorem C09_private_generators_seeded :
+    ∀ s ∈ Gen.Rng.sites, s.kind = "private" →
+      (s.argKind = "attr" ∨ s.argKind = "literal" ∨ s.argKind = "config" ∨ s.argKind = "param") := by decide
+
+/-- **A restore is not a reset to a fixed value**: every `np.random.set_state(…)` in the package takes its argument from a
+    loaded checkpoint dictionary, under a key that `save_sampler_state` fills with `np.random.get_state()` — the position a
+    run had when the checkpoint was written, never a literal and never something derived from the seed alone -/
+theorem C09_restore_from_saved_position :
+    (∀ s ∈ Gen.Rng.sites, s.kind = "setstate" → s.argKind = "loaded") ∧
+    (Gen.Rng.sites.filter fun s => s.kind == "setstate").length = Gen.Rng.restoreKeys.length ∧
+    (∀ r ∈ Gen.Rng.restoreKeys, ("save_sampler_state", r.2) ∈ Gen.Rng.savedStateKeys) := by decide
+
+/-- the table is not empty where it matters: it knows the two kernels' draws, the resampler's, the warm-up's and the
+    two seeding sites, the save / restore pair (a translator that silently finds nothing would make the obligations above vacuous) -/
+theorem C09_table_nonvacuous :
+    (Gen.Rng.sites.filter fun s => s.kind == "seed").length = 2 ∧
+    (Gen.Rng.sites.filter fun s => s.kind == "setstate").length = 1 ∧
+    (Gen.Rng.sites.filter fun s => s.kind == "getstate").length = 1 ∧
+    8 ≤ (Gen.Rng.sites.filter fun s => s.kind == "draw" && s.argKind == "global").length ∧
+    1 ≤ (Gen.Rng.sites.filter fun s => s.kind == "private").length := by decide
+
 /-- a fresh run seeds from config.random_state (when given) before its first draw:
     `_initialize_fresh` does the seeding under `is not None` and `run_sampling` calls it before the loop -/
 theorem C09_run_seeds_first :
     Gen.Rng.fresh_before_loop = 1 ∧ Gen.Rng.init_seeds_config = 1 ∧ Gen.Rng.seed_guarded_not_none = 1 := by decide
+
+/-- **a run seeds only before the first committed batch**: the `_initialize_fresh()` call of `run_sampling` sits on the final
+    `else` of `if resume_state_path is not None … elif self.state.get_history_length() > 0 … else`, and no earlier branch seeds
+    (the hypothesis `hasHistory d0 = false` of the fresh-run theorems, `= true` of `C09_run_with_history_continues`) -/
+theorem C09_run_seeds_only_on_empty_history : Gen.Rng.fresh_only_when_history_empty = 1 := by decide
 
 /-! ### non-vacuity: a toy linear congruential generator -/
 def lcg : Gen Nat Nat := ⟨fun s => ((5 * s + 3) % 16, s % 4), fun k => k % 16⟩
